@@ -6,6 +6,7 @@ import (
 	"bytes"
 	"fmt"
 	"math/rand"
+	"reflect"
 	"sync/atomic"
 
 	"github.com/aldas/go-modbus-client/packet"
@@ -299,4 +300,17 @@ func RunPattern(rng *rand.Rand, n int) []bool {
 		on = !on
 	}
 	return out
+}
+
+// ValueForm returns the value (non-pointer) form of a parsed response when that form implements packet.Response too
+// (the library's response methods have value receivers, so callers may hold either form); otherwise resp itself.
+func ValueForm(resp packet.Response) packet.Response {
+	v := reflect.ValueOf(resp)
+	if v.Kind() != reflect.Ptr || v.IsNil() {
+		return resp
+	}
+	if r, ok := v.Elem().Interface().(packet.Response); ok {
+		return r
+	}
+	return resp
 }
